@@ -91,6 +91,11 @@ DATES = [
     (2016, 6, 15, 12, 0, 0, 0),  # 11 MJD 57554: LOD, dPsi/dEps, dX/dY blank (prediction rows)
 ]
 QUICK_DATES = {"real": [0, 4, 5, 7, 11], "zero": [2, 8], "pass": [7], "warning": [5]}
+# The property's kinematic clause quantifies over orbit-attached frames as well.  With QSW/TNW orientation the library
+# converts velocities with a frozen triad (no -w x r term for the rotation of the local orbital frame), which the
+# finite-difference check reports as `kinematics/orbit-lof`.  Set to False only if the property is re-read as
+# "orbit-attached frames have instantaneously frozen axes"; the cases are then counted as excluded.
+LOF_KINEMATICS_IN_SCOPE = True
 SLOW_RATE = 1.5e-11  # rad/s, precession + nutation rate of the frames of date (neglected by the velocity map)
 MU_S = 50e-6  # time resolution of the Earth-rotation code (DESIGN.md §3, property texts: "50 us")
 
@@ -630,6 +635,9 @@ def run_unit(p, t):
         for B in FRAMES:
             if klass(B) == "body":
                 t.exclude("finite-difference kinematics in Moon/Sun-centred frames (not in the quantifier's frame list)")
+                continue
+            if klass(B) == "orbit-lof" and not LOF_KINEMATICS_IN_SCOPE:
+                t.exclude("finite-difference kinematics in QSW/TNW orbit-attached frames (frozen-axes reading)")
                 continue
             check_fd(ctx, cfg, si, B, t)
     run_triples(ctx, cfg, si, t)
